@@ -12,6 +12,7 @@
     pred mergeside how=… side=… lcoll=… rcoll=… avail=… and=… dep=…   -> 1|0       (Merge._filter_passthrough_available)
     pred mergepush side=… lcoll=… rcoll=…      -> LR bits          (Merge._simplify_up side selection)
     pred pushavail nfilters=… nparents=… inpred=…     -> 1|0       (is_filter_pushdown_available)
+    pred castguard from=int64 to=float32        -> guard=0 safe=0   (AsType._is_value_preserving per column; np.can_cast safe)
     pred rebuild ops=o0,self,o2                -> o0,new,o2        (Filter._simplify_up: parent.substitute(self, new))
 
   sexpr: (and x y) (or x y) (not x) or an atom token.  Atom tokens: a<i> (abstract);
@@ -151,6 +152,12 @@ def parseSide : String → Option PredCols
   | "right" => some .right | "both" => some .both | "neither" => some .neither
   | _ => none
 
+def parseND : String → Option NDType
+  | "bool" => some .bool | "int8" => some .i8 | "int16" => some .i16 | "int32" => some .i32 | "int64" => some .i64
+  | "uint8" => some .u8 | "uint16" => some .u16 | "uint32" => some .u32 | "uint64" => some .u64
+  | "float16" => some .f16 | "float32" => some .f32 | "float64" => some .f64
+  | _ => none
+
 def isKV (w : String) : Bool := (w.splitOn "=").length == 2 && !w.startsWith "("
 
 def handle : List String → Option String
@@ -215,6 +222,11 @@ def handle : List String → Option String
       some (match get (kvs rest) "ops" with
       | some ops => joinWith "," (substituteOperand (parseStrs ops) "self" "new")
       | none => "BAD params")
+  | "pred" :: "castguard" :: rest =>
+      let kv := kvs rest
+      some (match (get kv "from").bind parseND, (get kv "to").bind parseND with
+      | some o, some n => s!"guard={bool01 (castGuard o n)} safe={bool01 (numpySafe o n)}"
+      | _, _ => "guard=0 safe=?")     -- not a numpy numeric dtype: never value preserving unless equal (harness sends only unequal)
   | "pred" :: "pushavail" :: rest =>
       let kv := kvs rest
       some (match getNat kv "nfilters", getNat kv "nparents", getBool kv "inpred" with
